@@ -24,7 +24,17 @@ CFG = {
     "rule": "cases = (A2) very long rows / columns (997x1 ... 4096x1, 2047x2) with boundary constants and opaque content for "
             "every precision and filter; (A3) `S` sequences: six cube-map faces in changing colour formats through ONE "
             "encoder, aligned vs unaligned / strided input of the same pixels (file bytes must be equal; harness oracle "
-            "only, the model answers `seq ok`); (A) 12 colour formats x 5 filters x straight alpha on/off x 5 memory layouts (4-aligned, buffer "
+            "only, the model answers `seq ok`); (A4) `P` cases: single RGBA8 image, levels 0..k-1 by hand, generation on at "
+            "level k; (A5) `M ... m:<levels>`: the header declares fewer levels than the full chain or MORE (1..255; every "
+            "level past 1x1 is 1x1 again, generated from a 1x1 image) for 12 colour formats x 5 filters x straight alpha "
+            "on/off, constant / opaque / other content, sizes 1x1, 2x1, 4x4, 16x2, ... and the pools; (A6) `T` cases: whole "
+            "files through ONE encoder — single texture, cube map (6 faces), texture arrays of 2..7 elements, declared "
+            "level count short / full / surplus, every colour format and filter, the chain of every element started at "
+            "its own level (all from level 0; the FIRST generation of the encoder in the middle of element 0's chain and "
+            "later elements from level 0; the reverse; arbitrary), every written image with its own content and memory "
+            "layout: calls and finish succeed, exact file length, declared size of every level of every element after "
+            "re-opening, hand-written levels read back, generated levels satisfy the constant / opaque / range clauses; "
+            "the model answers the bytes written by each generating call, the total and done; (A) 12 colour formats x 5 filters x straight alpha on/off x 5 memory layouts (4-aligned, buffer "
             "offset 1/2/3, strided with odd/even extra pitch) x 5 contents (constant colour incl. alpha 0/1/max, opaque "
             "noise, per-channel bands, transparent/opaque holes, noise) on sizes drawn from the pool; (B) every size of "
             "1..12 x 1..12, a sample (thorough: all) of 1..40 x 1..40, all powers of two up to 256 x 256, extreme aspect "
@@ -85,7 +95,18 @@ def nontrivial(case, result):
 
 def classify(case, result):
     t = case.split(" ")
-    if len(t) < 10:
+    if t[0] in ("S", "P"):
+        return {"S": "S six faces, one encoder", "P": "P chain started in the middle"}[t[0]]
+    if t[0] == "T" and len(t) == 11:
+        # whole files: layout kind x declared level count vs the full chain x where the FIRST generation starts
+        full = max(int(t[2]), int(t[3])).bit_length()
+        m = int(t[4])
+        starts = t[9].split(",")
+        kind = "texture" if t[1] == "t" else "cube" if t[1] == "c" else "array"
+        dec = "short" if m < full else "full" if m == full else "surplus"
+        st = "top" if all(k == "0" for k in starts) else "first-mid" if starts[0] != "0" else "later-mid"
+        return f"T {kind} {dec} {st}"
+    if len(t) < 10 or t[0] != "M":
         return "bad"
     w, h = int(t[1]), int(t[2])
 
@@ -106,4 +127,9 @@ def classify(case, result):
         sz = "large"
     # 6 size classes x 5 filters x straight alpha on/off = 60 classes (check.py keeps the 60 largest);
     # colour format, memory layout and content are swept as a full product by generator part (A)
+    if len(t) == 11:
+        # declared level count other than the full chain
+        m = int(t[10][2:])
+        full = max(w, h).bit_length()
+        return f"M declared {'short' if m < full else 'full' if m == full else 'surplus'}"
     return f"{sz} {t[5]} sa={t[6]}"
